@@ -1,5 +1,9 @@
 import LitexProofs.Stream.HandshakeBasic
 import LitexProofs.Stream.HandshakeStatus
+import LitexProofs.Stream.HandshakeConv
+import LitexProofs.Stream.HandshakeRoute
+import LitexProofs.Stream.HandshakeGearbox
+import LitexModel.Stream.NumG
 /-
   C04 — Stream elements keep the handshake contract and never stall forever.
 
@@ -162,6 +166,254 @@ theorem bufferVR_no_livelock (z : Tok α) : DeliversWithin (bufferVR z) 2 :=
   deliversWithin_of_window _ (fun s => True ∧ prInv s.2)
     ⟨trivial, by simp [prInv, bufferVR, Elem.comp, pipeReady]⟩ (bufferVR_stepStable z).inv_step 2
     (fun s ins hs hc hl => bufferVR_del_window z s hs.2 ins hc hl)
+
+/-! ## Progress through composition
+
+  `DelMeasure e Inv μ B`: `Inv` is inductive, `μ ≤ B` on `Inv`, and in every cooperative cycle from an `Inv` state
+  the element delivers or `μ` strictly decreases — hence a delivery in every window of `B + 1` cooperative cycles.
+  Measures compose through `a ⟫ b` when `a` is a *front* element (offers one cycle after any cycle with
+  sink.valid: PipeValid, PipeReady, wire, FIFO depth ≥ 2, down-converter, Cast) or `b` is a *back* element
+  (PipeValid).  This covers `Buffer`, `Delay`, `BufferizeEndpoints` and `Pipeline`s of front elements. -/
+
+theorem compose_progress_front {a : Elem α β σ} {b : Elem β γ τ} {Ia : σ → Prop} {Ib : τ → Prop}
+    {hot : σ → Bool} {μ : τ → Nat} {B : Nat} (ha : Front a Ia hot) (hb : DelMeasure b Ib μ B)
+    (h0a : Ia a.init) (h0b : Ib b.init) : DeliversWithin (a.comp b) (B + 2) :=
+  (ha.comp hb).delivers ⟨h0a, h0b⟩
+
+theorem compose_progress_back {a : Elem α β σ} {b : Elem β γ τ} {Ia : σ → Prop} {Ib : τ → Prop}
+    {full : τ → Bool} {μ : σ → Nat} {B : Nat} (ha : DelMeasure a Ia μ B) (hb : Back b Ib full)
+    (h0a : Ia a.init) (h0b : Ib b.init) : DeliversWithin (a.comp b) (B + 2) :=
+  (Back.comp ha hb).delivers ⟨h0a, h0b⟩
+
+/-- An element whose `sink.ready` follows `source.ready` accepts in every cooperative cycle; the class is closed
+    under `⟫` (`ReadyTransparent.comp`). -/
+theorem compose_accepts {a : Elem α β σ} {b : Elem β γ τ} {Ia : σ → Prop} {Ib : τ → Prop}
+    (ha : ReadyTransparent a Ia) (hb : ReadyTransparent b Ib)
+    (hsa : ∀ s i, Ia s → Ia (a.step s i)) (hsb : ∀ s i, Ib s → Ib (b.step s i))
+    (h0a : Ia a.init) (h0b : Ib b.init) : AcceptsWithin (a.comp b) 1 :=
+  (ha.comp hb).accepts ⟨h0a, h0b⟩ (fun s i h => by
+    rw [comp_step]; exact ⟨hsa s.1 _ h.1, hsb s.2 _ h.2⟩)
+
+/-! ## _UpConverter / Pack (`upConv r`, `r ≥ 1`) -/
+
+theorem upConv_stable {π : Type} (r : Nat) (z : α) (p0 : π) : KeepsContract (upConv r z p0) :=
+  keepsContract_of_stepStable (upConv_stepStable r z p0) trivial
+
+/-- `sink.ready = ~strobe_all | source.ready`: a sink handshake in every cooperative cycle. -/
+theorem upConv_progress {π : Type} (r : Nat) (hr : 0 < r) (z : α) (p0 : π) : AcceptsWithin (upConv r z p0) 1 :=
+  (upConv_readyTransparent r z p0).accepts (by simpa [upInv, upConv] using hr) (upConv_inv_step r hr z p0)
+
+/-- A word at least every `r + 1` cooperative cycles (`r` sub-words, then the strobe cycle). -/
+theorem upConv_no_livelock {π : Type} (r : Nat) (hr : 0 < r) (z : α) (p0 : π) :
+    DeliversWithin (upConv r z p0) (r + 1) :=
+  (upConv_measure r hr z p0).delivers (by simpa [upInv, upConv] using hr)
+
+/-! ## StrideConverter, up-converting (`strideUp r`; after fix 3f0170f the param register is loaded with the
+    sub-word, so the plain contract holds — before the fix `source.param` followed the idle sink lines) -/
+
+theorem strideUp_stable {π : Type} (r : Nat) (z : α) (p0 : π) : KeepsContract (strideUp r z p0) :=
+  keepsContract_of_stepStable (strideUp_stepStable r z p0) trivial
+
+theorem strideUp_progress {π : Type} (r : Nat) (hr : 0 < r) (z : α) (p0 : π) :
+    AcceptsWithin (strideUp r z p0) 1 :=
+  (strideUp_readyTransparent r z p0).accepts (by simpa [upInv, strideUp, upConv] using hr)
+    (fun s i h => strideUp_inv_step r hr z p0 s i h)
+
+theorem strideUp_no_livelock {π : Type} (r : Nat) (hr : 0 < r) (z : α) (p0 : π) :
+    DeliversWithin (strideUp r z p0) (r + 1) :=
+  (strideUp_measure r hr z p0).delivers (by simpa [upInv, strideUp, upConv] using hr)
+
+/-! ## _DownConverter / Unpack / StrideConverter down (`downConv r`) -/
+
+theorem downConv_stable {π : Type} (r : Nat) (z : α) : KeepsContract (downConv (π := π) r z) :=
+  keepsContract_of_stepStable (downConv_stepStable r z) trivial
+
+/-- `source.valid = sink.valid`: a delivery in every cooperative cycle. -/
+theorem downConv_no_livelock {π : Type} (r : Nat) (hr : 0 < r) (z : α) :
+    DeliversWithin (downConv (π := π) r z) 1 :=
+  (downConv_measure r hr z).delivers (by simpa [downInv, downConv] using hr)
+
+/-- ... and the sink is served once every `r` cooperative cycles. -/
+theorem downConv_accepts {π : Type} (r : Nat) (hr : 0 < r) (z : α) :
+    AcceptsWithin (downConv (π := π) r z) (r - 1 + 1) :=
+  acceptsWithin_of_measure _ (downInv r) (by simpa [downInv, downConv] using hr) (downConv_inv_step r hr z)
+    (fun m => r - 1 - m) (r - 1) (fun m _ => Nat.sub_le _ _) (fun m i h hc => downConv_acc_dec r z m i h hc)
+
+/-! ## Cast (`mapElem f`, any combinational re-labelling of the data) -/
+
+theorem cast_stable (f : α → β) : KeepsContract (mapElem f) :=
+  keepsContract_of_stepStable (mapElem_stepStable f) trivial
+
+theorem cast_no_livelock (f : α → β) : DeliversWithin (mapElem f) 1 :=
+  (mapElem_measure f).delivers trivial
+
+/-! ## Gate
+
+  The model carries `enable` with the sink-side wires: a sink token is `(payload, enable)`.  The producer contract
+  `StableIn` therefore *includes* "enable is held while a token is refused" — the explicit selector hypothesis of
+  this element.  Without it the gate retracts by design (negative witness below). -/
+
+theorem gate_stable (srd : Bool) (z : α) : KeepsContract (gate srd z) :=
+  keepsContract_of_stepStable (gate_stepStable srd z) trivial
+
+/-- Cooperative and enabled: a delivery in every cycle. -/
+theorem gate_no_livelock (srd : Bool) (z : α) : DeliversWithinC (gate srd z) GateCoop 1 :=
+  deliversWithin_of_window _ (fun _ => True) trivial (fun _ _ _ => trivial) 1
+    (fun s ins _ hc hl => gate_del_window srd z s ins hc hl)
+
+/-- Negative witness: the payload is held but `enable` drops while the token waits → `source.valid` retracts. -/
+example :
+    let ins : List (In (Nat × Bool)) := [⟨true, ⟨(5, true), false, false⟩, false⟩, ⟨true, ⟨(5, false), false, false⟩, false⟩]
+    ¬ StableOut (gate false (0 : Nat)) () ins := by
+  simp [StableOut, StableOutFrom, HoldsOut, gate, Elem.out]
+
+/-! ## Shifter (PipelinedActor, latency 2)
+
+  `source.data` is selected combinationally by the `shift` input (sink token data = (data, shift)); the contract
+  needs `ShiftHeld`: while a token waits at the source (`valid_2 ∧ ¬source.ready`) the `shift` input is held. -/
+
+theorem shifter_stable (dw : Nat) : KeepsContractX (shifter dw) ShiftHeld :=
+  keepsContractX_of_stepStable (shifter_stepStable dw) trivial
+
+theorem shifter_progress (dw : Nat) : AcceptsWithin (shifter dw) 1 :=
+  (shifter_readyTransparent dw).accepts trivial (fun _ _ _ => trivial)
+
+/-- `pipe_ce = source.ready | ~valid`: a delivery at least every `L + 1 = 3` cooperative cycles. -/
+theorem shifter_no_livelock (dw : Nat) : DeliversWithin (shifter dw) 3 :=
+  (shifter_measure dw).delivers trivial
+
+/-- Negative witness: `shift` moves (0 → 1) while the token waits → the source data changes (r = 0b1001:
+    `r[0:2] = 1`, `r[1:3] = 0`). -/
+example :
+    let s : ShState := { v1 := false, v2 := true, f1 := false, f2 := false, l1 := false, l2 := false, rlo := 1, rhi := 2 }
+    let i  : In (Nat × Nat) := ⟨false, ⟨(0, 0), false, false⟩, false⟩
+    let i' : In (Nat × Nat) := ⟨false, ⟨(0, 1), false, false⟩, false⟩
+    ¬ HoldsOut ((shifter 2).out s i) ((shifter 2).out ((shifter 2).step s i) i') i := by
+  intro s i i' h
+  have h2 := (h rfl rfl).2
+  revert h2
+  decide
+
+/-! ## Delay n (n PipeValid stages in a Pipeline) -/
+
+theorem delay_stable (z : Tok α) (n : Nat) : KeepsContract (delay z n) :=
+  keepsContract_of_stepStable (delay_stepStable z n) trivial
+
+theorem delay_progress (z : Tok α) (n : Nat) : AcceptsWithin (delay z n) 1 :=
+  (delay_readyTransparent z n).accepts trivial (fun _ _ _ => trivial)
+
+/-- By induction over the stages with `Front.comp`: a delivery at least every `n + 1` cooperative cycles. -/
+theorem delay_no_livelock (z : Tok α) (n : Nat) : DeliversWithin (delay z n) (n + 1) := by
+  obtain ⟨μ, h⟩ := delay_measure z n
+  exact h.delivers trivial
+
+/-! ## BufferizeEndpoints around an _UpConverter: PipeValid ⟫ upConv ⟫ PipeValid (a 3-element composition) -/
+
+theorem bufferized_stable {π : Type} (r : Nat) (z1 : Tok (α × π)) (z : α) (p0 : π) (z2 : Tok (UpWord α π)) :
+    KeepsContract ((pipeValid z1).comp ((upConv r z p0).comp (pipeValid z2))) :=
+  keepsContract_of_stepStable
+    ((pipeValid_stepStable z1).comp ((upConv_stepStable r z p0).comp (pipeValid_stepStable z2)))
+    ⟨trivial, trivial, trivial⟩
+
+theorem bufferized_no_livelock {π : Type} (r : Nat) (hr : 0 < r) (z1 : Tok (α × π)) (z : α) (p0 : π)
+    (z2 : Tok (UpWord α π)) :
+    DeliversWithin ((pipeValid z1).comp ((upConv r z p0).comp (pipeValid z2))) (r + 3) :=
+  ((pipeValid_front z1).comp (Back.comp (upConv_measure r hr z p0) (pipeValid_back z2))).delivers
+    ⟨trivial, by simpa [upInv, upConv, Elem.comp] using hr, trivial⟩
+
+theorem bufferized_progress {π : Type} (r : Nat) (hr : 0 < r) (z1 : Tok (α × π)) (z : α) (p0 : π)
+    (z2 : Tok (UpWord α π)) :
+    AcceptsWithin ((pipeValid z1).comp ((upConv r z p0).comp (pipeValid z2))) 1 :=
+  (ReadyTransparent.comp (Ia := fun _ => True) (fun s v t _ => (pipeValid_back z1).ready s v t trivial)
+    (ReadyTransparent.comp (upConv_readyTransparent r z p0)
+      (Ib := fun _ => True) (fun s v t _ => (pipeValid_back z2).ready s v t trivial))).accepts
+    ⟨trivial, by simpa [upInv, upConv, Elem.comp] using hr, trivial⟩
+    ((pipeValid_front z1).comp (Back.comp (upConv_measure r hr z p0) (pipeValid_back z2))).inv_step
+
+/-- The driver's `bufferized_up r` machine is this composition. -/
+example (r : Nat) : bufferizedUp r =
+    (pipeValid ⟨(0, 0), false, false⟩).comp ((upConv r 0 0).comp (pipeValid ⟨⟨List.replicate r 0, 0, 0⟩, false, false⟩)) := rfl
+
+/-! ## A mixed 3-element Pipeline: PipeValid ⟫ SyncFIFO(depth) ⟫ PipeReady -/
+
+theorem chain3_stable (depth : Nat) (z : Tok α) :
+    KeepsContract ((pipeValid z).comp ((syncFifo depth z).comp (pipeReady z))) :=
+  keepsContract_of_stepStable
+    ((pipeValid_stepStable z).comp ((syncFifo_stepStable depth z).comp (pipeReady_stepStable z)))
+    ⟨trivial, by simp [fifoInv, syncFifo, Elem.comp], by simp [prInv, pipeReady, Elem.comp]⟩
+
+/-- PipeReady delivers at once (B = 0), the FIFO and PipeValid in front of it are front elements: a delivery at
+    least every 3 cooperative cycles from every reachable state of the chain. -/
+theorem chain3_no_livelock (depth : Nat) (hd : 2 ≤ depth) (z : Tok α) :
+    DeliversWithin ((pipeValid z).comp ((syncFifo depth z).comp (pipeReady z))) 3 :=
+  ((pipeValid_front z).comp ((syncFifo_front depth hd z).comp (pipeReady_measure z))).delivers
+    ⟨trivial, by simp [fifoInv, syncFifo, Elem.comp], by simp [prInv, pipeReady, Elem.comp]⟩
+
+/-! ## Gearbox (`L = io_lcm` as computed by the constructor) -/
+
+theorem gearbox_stable (i o : Nat) (hi : 0 < i) (ho : 0 < o) (z : α) :
+    KeepsContract (gearbox (ioLcm i o) i o z) := by
+  obtain ⟨hiL, hoL, h2i, h2o⟩ := ioLcm_facts i o hi ho
+  exact keepsContract_of_stepStable (gearbox_stepStable _ i o hi ho hiL hoL z) (gbInv_init _ i o hi ho h2i h2o z)
+
+/-- `io_lcm ≥ 2·max(i, o)`: whenever the sink is not ready (`level ≥ io_lcm − i`) the source is valid
+    (`level ≥ o`), so every cooperative cycle has a handshake — no deadlock. -/
+theorem gearbox_progress (i o : Nat) (hi : 0 < i) (ho : 0 < o) (z : α) :
+    ProgressWithin (gearbox (ioLcm i o) i o z) 1 := by
+  obtain ⟨hiL, hoL, h2i, h2o⟩ := ioLcm_facts i o hi ho
+  exact progressWithin_of_window _ (gbInv _ i o z) (gbInv_init _ i o hi ho h2i h2o z)
+    (gbInv_step _ i o hi ho hiL hoL z) 1 (fun s ins _ hc hl => gearbox_hs_window _ i o h2i h2o z s ins hc hl)
+
+/-- A source word at least every `⌈o / i⌉ + 1` cooperative cycles. -/
+theorem gearbox_no_livelock (i o : Nat) (hi : 0 < i) (ho : 0 < o) (z : α) :
+    DeliversWithin (gearbox (ioLcm i o) i o z) ((o + (i - 1)) / i + 1) := by
+  obtain ⟨hiL, hoL, h2i, h2o⟩ := ioLcm_facts i o hi ho
+  exact (gearbox_measure _ i o hi ho hiL hoL h2i h2o z).delivers (gbInv_init _ i o hi ho h2i h2o z)
+
+/-! ## Multiplexer / Demultiplexer (combinational; the selector hypothesis is explicit) -/
+
+/-- Along any input list on which (`hsel`) the selector is held while a token waits at the source and (`hprod`)
+    every sink producer re-offers a refused token, the source keeps the contract at every cycle boundary. -/
+theorem mux_stable (n : Nat) (z : Tok α) (ins : List (MuxIn α))
+    (hsel : ∀ t i i', ins[t]? = some i → ins[t + 1]? = some i' →
+      (muxOut n z i).valid = true → i.ready = false → i'.sel = i.sel)
+    (hprod : ∀ t i i' k, ins[t]? = some i → ins[t + 1]? = some i' →
+      (i.sinks.getD k (false, z)).1 = true → (muxOut n z i).readies.getD k false = false →
+      i'.sinks.getD k (false, z) = (true, (i.sinks.getD k (false, z)).2)) :
+    ∀ t i i', ins[t]? = some i → ins[t + 1]? = some i' → (muxOut n z i).valid = true → i.ready = false →
+      ((muxOut n z i').valid = true ∧ (muxOut n z i').tok = (muxOut n z i).tok) :=
+  mux_stable_trace n z ins hsel hprod
+
+/-- The selected token moves in the very cycle in which its sink offers and the consumer is ready. -/
+theorem mux_progress (n : Nat) (z : Tok α) (i : MuxIn α) (hlt : i.sel < n)
+    (hv : (i.sinks.getD i.sel (false, z)).1 = true) (hr : i.ready = true) :
+    muxDel n z i = [(i.sinks.getD i.sel (false, z)).2] ∧
+    muxAccAt n z i.sel i = [(i.sinks.getD i.sel (false, z)).2] :=
+  mux_moves n z i hlt hv hr
+
+theorem demux_stable (n : Nat) (z : Tok α) (ins : List (DemuxIn α))
+    (hsel : ∀ t i i', ins[t]? = some i → ins[t + 1]? = some i' →
+      i.valid = true → (demuxOut n z i).ready = false → i'.sel = i.sel)
+    (hprod : ∀ t i i', ins[t]? = some i → ins[t + 1]? = some i' →
+      i.valid = true → (demuxOut n z i).ready = false → (i'.valid = true ∧ i'.tok = i.tok)) :
+    ∀ t i i' k, ins[t]? = some i → ins[t + 1]? = some i' →
+      ((demuxOut n z i).sources.getD k (false, z)).1 = true → i.readies.getD k false = false →
+      (((demuxOut n z i').sources.getD k (false, z)).1 = true ∧
+       ((demuxOut n z i').sources.getD k (false, z)).2 = ((demuxOut n z i).sources.getD k (false, z)).2) :=
+  demux_stable_trace n z ins hsel hprod
+
+theorem demux_progress (n : Nat) (z : Tok α) (i : DemuxIn α) (hlt : i.sel < n) (hv : i.valid = true)
+    (hr : i.readies.getD i.sel false = true) :
+    demuxAcc n z i = [i.tok] ∧ demuxDelAt n z i.sel i = [i.tok] :=
+  demux_moves n z i hlt hv hr
+
+/-- Negative witness for the selector hypothesis: sink 0 offers and holds, the consumer stalls, `sel` moves to the
+    idle sink 1 → `source.valid` retracts. -/
+example :
+    let z : Tok Nat := ⟨0, false, false⟩
+    let i  : MuxIn Nat := { sel := 0, sinks := [(true, ⟨7, true, false⟩), (false, z)], ready := false }
+    let i' : MuxIn Nat := { sel := 1, sinks := [(true, ⟨7, true, false⟩), (false, z)], ready := false }
+    (muxOut 2 z i).valid = true ∧ (muxOut 2 z i').valid = false := by decide
 
 /-! ## packet.Status -/
 
